@@ -74,7 +74,9 @@ where
     {
         let m = pattern.len();
         self.D[0].clear();
-        self.D[0].extend(repeat(k + 1).take(m + 1));
+        // `k` may be `usize::MAX` ("no limit"): the filler only has to exceed `k` where a cell above
+        // `lastk` is read, and for k >= m no such cell exists
+        self.D[0].extend(repeat(k.saturating_add(1)).take(m + 1));
         self.D[1].clear();
         self.D[1].extend(0..=m);
         Matches {
